@@ -17,14 +17,15 @@ def _guard(arg):
         return ('err', '%s: %s\n%s' % (type(e).__name__, e, traceback.format_exc()[-1500:]))
 
 
-def pmap(func, items, workers=None):
+def pmap(func, items, workers=None, chunk=None):
     items = list(items)
     workers = workers or min(14, os.cpu_count() or 2)
     if len(items) <= 1 or workers <= 1:
         return [func(x) for x in items]
     ctx = multiprocessing.get_context('fork')
-    with ctx.Pool(workers) as pool:
-        res = pool.map(_guard, [(func, x) for x in items], chunksize=max(1, len(items) // (workers * 8)))
+    # chunk=1: a fresh worker process per item (maxtasksperchild), for drivers that leave process-wide state behind
+    with ctx.Pool(workers, maxtasksperchild=1 if chunk == 1 else None) as pool:
+        res = pool.map(_guard, [(func, x) for x in items], chunksize=chunk or max(1, len(items) // (workers * 8)))
     bad = [r[1] for r in res if r[0] != 'ok']
     if bad:
         raise WorkerError('%d driver call(s) failed in worker processes; first:\n%s' % (len(bad), bad[0]))
